@@ -16,6 +16,7 @@ import numpy as np
 from wgverif import env  # noqa: F401
 from wgverif.checks import _hydro as HY
 from wgverif.models import eos as E
+from wgverif.models import potentials as P
 from wgverif.oracles import fluid as F
 
 PROPERTY = "C02"
@@ -41,12 +42,15 @@ K_HYBR = 100
 FLOORS = {
     "quick": {"distinct_nontrivial": 400,
               "mon": {"findMatching": 800, "findHydroBoundaries": 400,
-                      "template.findMatching": 150},
-              "cls": {"deflagration": 100, "hybrid": 60, "detonation": 100}},
+                      "template.findMatching": 150, "traced_setups": 10},
+              "cls": {"deflagration": 100, "hybrid": 60, "detonation": 100,
+                      "traced:deflagration": 15, "traced:hybrid": 8, "traced:detonation": 8}},
     "thorough": {"distinct_nontrivial": 10000,
                  "mon": {"findMatching": 20000, "findHydroBoundaries": 10000,
-                         "template.findMatching": 4000},
-                 "cls": {"deflagration": 2500, "hybrid": 1500, "detonation": 2500}},
+                         "template.findMatching": 4000, "traced_setups": 100},
+                 "cls": {"deflagration": 2500, "hybrid": 1500, "detonation": 2500,
+                         "traced:deflagration": 200, "traced:hybrid": 100,
+                         "traced:detonation": 100}},
 }
 
 
@@ -62,6 +66,16 @@ def generate(tier, seed):
         spec = E.random_spec(rng)
         cases.append({"i": i, "spec": spec, "setting": int(rng.integers(len(SETTINGS))),
                       "nv": n_v, "s": int(rng.integers(1 << 30))})
+    # numerically traced potentials: the real WallGoManager set-up (phase tracing,
+    # interpolation, extrapolation) supplies the equation of state
+    rng2 = np.random.default_rng(2500 + seed)
+    for i in range(16 if tier == "quick" else 160):
+        fam = ["poly1", "bag1", "poly2"][int(rng2.choice(3, p=[0.5, 0.25, 0.25]))]
+        pspec = getattr(P, "random_" + fam)(rng2)
+        cases.append({"i": 100000 + i, "traced": True, "pspec": pspec,
+                      "setting": int(rng2.integers(len(SETTINGS))),
+                      "ptol": float(rng2.choice([1e-6, 1e-8])),
+                      "nv": 6 if tier == "quick" else 10, "s": int(rng2.integers(1 << 30))})
     return cases
 
 
@@ -95,8 +109,8 @@ def propagated_tol(probe, m, cls):
     else:
         # hybr works on x = tan(pi (T - mid)/range) and stops on a *relative* step xtol
         # whose numerical value is the object's atol: dT = xtol |x| (range/pi)/(1+x^2)
-        rng_ = (HY.TMAX - HY.TMIN) * probe.Tn
-        mid = 0.5 * (HY.TMAX + HY.TMIN) * probe.Tn
+        rng_ = probe.hyd.TMaxHydro - probe.hyd.TMinHydro
+        mid = 0.5 * (probe.hyd.TMaxHydro + probe.hyd.TMinHydro)
 
         def dT(T):
             x = math.tan(math.pi * (T - mid) / rng_)
@@ -143,8 +157,11 @@ def exact_matching_exists(probe, vw):
     # wall over a generous temperature range for the upper end of the scan
     csqn = max(probe.eos.ref("H", probe.Tn * f)["csq"] for f in np.linspace(1.0, 2.0, 21))
     vpmax = min(vw, csqn / vw)
-    vals = []
-    for vp in np.linspace(1e-3, vpmax * (1 - 1e-9), 40):
+    vals = []      # (vp, Tn'-Tn, scan index, Tp, Tm)   reference flow evaluated
+    sonic = []     # (vp, g = vp*vw - cs^2(Tp), scan index, Tp, Tm)   every validated matching
+    grid = np.unique(np.concatenate([np.linspace(1e-3, vpmax * (1 - 1e-9), 40),
+                                     np.linspace(0.9 * vpmax, vpmax * (1 - 1e-9), 25)]))
+    for k, vp in enumerate(grid):
         try:
             vp_, vm_, Tp_, Tm_ = hyd.matchDeflagOrHyb(vw, float(vp))
             if not hyd.success:
@@ -152,13 +169,41 @@ def exact_matching_exists(probe, vw):
             r1, r2 = probe.flux_residuals(float(vp_), float(vm_), float(Tp_), float(Tm_))
             if abs(r1) > 1e-6 or abs(r2) > 1e-6:
                 continue
+            g = float(vp_) * vw - probe.eos.ref("H", float(Tp_))["csq"]
+            sonic.append((float(vp), g, k, float(Tp_), float(Tm_)))
+            if g >= 0:
+                continue          # beyond the sonic limit: no shock ahead of this wall
             tn, _, _ = probe.ref_Tn(vw, float(vp_), float(Tp_))
-            vals.append((float(vp), tn - probe.Tn))
+            vals.append((float(vp), tn - probe.Tn, k, float(Tp_), float(Tm_)))
         except Exception:
             continue
-    signs = [np.sign(v[1]) for v in vals if v[1] != 0]
-    change = any(a != b for a, b in zip(signs, signs[1:]))
-    return change, len(vals), vals[:3]
+
+    def close(a, b):
+        return b[2] - a[2] == 1 and abs(b[3] - a[3]) < 0.03 * a[3] and \
+            abs(b[4] - a[4]) < 0.03 * a[4]
+    # A sign change proves a root only on one continuous family of matchings: the two
+    # points must be adjacent scan points and their temperatures close (the 2x2 solve can
+    # land on another solution branch, e.g. in the extrapolated region beyond a phase end,
+    # and a sign change across such a jump proves nothing).
+    change = False
+    for a, b in zip(vals, vals[1:]):
+        if a[1] == 0 or b[1] == 0 or np.sign(a[1]) == np.sign(b[1]):
+            continue
+        if close(a, b):
+            change = True
+    # The upper end of the family is the sonic limit v+ v_w = c_s^2(T+), where the shock
+    # is infinitely weak and T_n' = T+: if T+ > T_n there while T_n' < T_n at the last
+    # point below, the root lies in between (no reference flow needed, nor possible, there)
+    if not change:
+        for a, b in zip(sonic, sonic[1:]):
+            if a[1] < 0 <= b[1] and close(a, b):
+                t = -a[1] / (b[1] - a[1])
+                Tp_star = a[3] + t * (b[3] - a[3])
+                below = [v for v in vals if v[2] <= a[2]]
+                if below and close(below[-1], b) or (below and below[-1][2] == a[2]):
+                    if below[-1][1] < 0 < Tp_star - probe.Tn:
+                        change = True
+    return change, len(vals), [v[:2] for v in vals[:3]]
 
 
 def judge_boundaries(probe, m, hb, viol, tol1, tol2, tag):
@@ -211,21 +256,37 @@ def flux_mech(cls, vw, tag="", m=None):
 
 def run_case(case):
     rng = np.random.default_rng(case["s"])
-    spec = case["spec"]
     rtol, atol_rel = SETTINGS[case["setting"]]
     mon = {"findMatching": 0, "findHydroBoundaries": 0, "template.findMatching": 0,
-           "template.findHydroBoundaries": 0, "fallback_scans": 0}
-    eos = E.build(spec)
-    ok, why = E.admissible(eos)
-    key0 = f"{spec['family']}:{case['i']}:{case['setting']}"
-    if not ok:
-        return {"key": key0, "cls": "inadmissible-eos", "nontrivial": False,
-                "obs": {"why": why}, "viol": [], "mon": mon}
-    try:
-        probe = HY.HydroProbe(spec, rtol, atol_rel)
-    except Exception as exc:
-        return {"key": key0, "cls": "construction-error", "nontrivial": False,
-                "obs": {"error": repr(exc)[:200]}, "viol": [], "mon": mon}
+           "template.findHydroBoundaries": 0, "fallback_scans": 0, "traced_setups": 0}
+    if case.get("traced"):
+        from wgverif.checks import _manager as MG
+        spec = case["pspec"]
+        key0 = f"traced-{spec['family']}:{case['i']}:{case['setting']}"
+        try:
+            built = MG.build(spec, {"hydro_rtol": rtol, "hydro_atol": atol_rel,
+                                    "phaseTracerTol": case["ptol"]})
+        except Exception as exc:
+            return {"key": key0, "cls": "traced:setup-raised", "nontrivial": False,
+                    "obs": {"error": repr(exc)[:300], "spec": spec}, "viol": [], "mon": mon}
+        mon["traced_setups"] += 1
+        manager = built["manager"]
+        probe = HY.HydroProbe.from_objects(manager.thermodynamics, manager.hydrodynamics,
+                                           rtol, atol_rel, spec)
+        eos = probe.eos
+    else:
+        spec = case["spec"]
+        eos = E.build(spec)
+        ok, why = E.admissible(eos)
+        key0 = f"{spec['family']}:{case['i']}:{case['setting']}"
+        if not ok:
+            return {"key": key0, "cls": "inadmissible-eos", "nontrivial": False,
+                    "obs": {"why": why}, "viol": [], "mon": mon}
+        try:
+            probe = HY.HydroProbe(spec, rtol, atol_rel)
+        except Exception as exc:
+            return {"key": key0, "cls": "construction-error", "nontrivial": False,
+                    "obs": {"error": repr(exc)[:200]}, "viol": [], "mon": mon}
     hyd, tmpl = probe.hyd, probe.tmpl
     cb = math.sqrt(eos.ref("L", probe.Tn)["csq"])
     vws, kinds = HY.velocities(rng, hyd, case["nv"], cb, probe)
@@ -284,6 +345,8 @@ def run_case(case):
                              f", momentum-flux mismatch {r0[1]:.3e} (tol {t2:.1e})",
                              "data": {"spec": spec, **row, **m}})
             classes.append(cls)
+            if case.get("traced"):
+                classes.append("traced:" + cls)
             keys.append(f"{key0}:{vw:.9f}:{cls}")
         # boundary constants
         try:
